@@ -144,11 +144,14 @@ def plan_to_request(root, snap, plan):
     return " ".join(["applytree"] + gen.wire_tree(tree) + gen.wire_hunks(hunks) + gen.wire_rens(rens))
 
 
-def cli_case(ctx, rng, idx, from_file):
-    swords, rwords = gen.pick_terms(rng)
-    tree = gen.gen_tree(rng, swords, depth=4, max_entries=14)
-    search, repl = gen.render(rng.choice(["snake", "camel", "kebab", "pascal"]), swords), \
-        gen.render(rng.choice(["snake", "camel", "kebab"]), rwords)
+def cli_case(ctx, rng, idx, from_file, fixed=None):
+    if fixed:
+        tree, search, repl = fixed
+    else:
+        swords, rwords = gen.pick_terms(rng)
+        tree = gen.gen_tree(rng, swords, depth=4, max_entries=14)
+        search, repl = gen.render(rng.choice(["snake", "camel", "kebab", "pascal"]), swords), \
+            gen.render(rng.choice(["snake", "camel", "kebab"]), rwords)
     with common.scratch() as d:
         common.materialize(d, tree)
         before = common.snapshot(d)
@@ -159,7 +162,8 @@ def cli_case(ctx, rng, idx, from_file):
             return None
         plan = json.load(open(plan_path))
         exp, prob = oracle.expected_tree(before, plan, d)
-        case = {"tree": common.snap_digest(before), "search": search, "replace": repl, "from_file": from_file,
+        case = {"op": "cli", "tree": common.snap_digest(before), "tree_dump": common.tree_dump(before),
+                "search": search, "replace": repl, "from_file": from_file,
                 "matches": len(plan["matches"]), "renames": len(plan["paths"])}
         nontrivial = len(plan["matches"]) + len(plan["paths"]) > 0
         ctx.case(("cli", idx, search, repl, sorted(tree)), nontrivial)
@@ -297,11 +301,26 @@ def replay(ctx, path):
     obj = json.load(open(path))
     case = obj.get("case", {})
     ok, msg = common.cargo_build()
-    if isinstance(case, dict) and "request" in case:
+    if not ok:
+        ctx.broke("build", "cargo", msg)
+        return
+    if isinstance(case, dict) and case.get("op") == "cli" and "tree_dump" in case:
+        r = cli_case(ctx, ctx.rng, 0, case.get("from_file", False),
+                     fixed=(common.tree_undump(case["tree_dump"]), case["search"], case["replace"]))
+        if r is None:
+            print("plan failed or outside the reference guard"); return
+        c2, req, exp, after, rc = r
+        print("rc", rc, "diff", common.snap_diff(exp, after))
+        if rc == 0 and after != exp:
+            ctx.violation("input", c2, expected=common.snap_diff(exp, after), observed="exit 0")
+    elif isinstance(case, dict) and "request" in case:
         impl = common.run_impl([case["request"]])[0]
         model = common.run_model([case["request"]])[0]
         print("impl :", impl[:300]); print("model:", model[:300])
-        if obj.get("expected") and isinstance(obj["expected"], str) and impl != obj["expected"]:
-            ctx.violation(obj["kind"], case, expected=obj["expected"], observed=impl, model_prediction=model)
+        exp = obj.get("expected")
+        if isinstance(exp, str) and impl != exp:
+            ctx.violation(obj["kind"], case, expected=exp, observed=impl, model_prediction=model)
+        elif isinstance(exp, dict) and impl.split(" ", 1)[0] != exp.get("outcome", impl.split(" ", 1)[0]):
+            ctx.violation(obj["kind"], case, expected=exp, observed=impl.split(" ", 1)[0], model_prediction=model.split(" ", 1)[0])
     else:
         print(json.dumps(obj, indent=1)[:2000])
